@@ -13,6 +13,8 @@ A *spec* is a plain dict (python objects, tuples for edges):
   cons     list of constraints; a constraint is a list (well-formed) or a tuple (malformed) of items;
            an item is a 2-tuple edge (edge mode), a node name (node mode), or something else (malformed)
   cov      number
+  cov_len  None | number            subpath_constraints_coverage_length (DAG models)
+  len_attr bool                     a length_attr is passed
   ign      list of elements to ignore (edges or nodes)
   starts, ends   additional start / end nodes
 """
@@ -113,7 +115,7 @@ def gen_valid(rng, cls):
     spec = {"cls": cls, "nodes": nodes, "origin": origin, "wtype": rng.choice(["float", "int"]),
             "edges": [(u, v, ew[(u, v)]) for (u, v) in G.edges()],
             "node_w": {v: nw[v] for v in nodes} if origin == "node" else {},
-            "k": None, "cons": [], "cov": 1.0, "ign": [], "starts": [], "ends": []}
+            "k": None, "cons": [], "cov": 1.0, "cov_len": None, "len_attr": False, "ign": [], "starts": [], "ends": []}
     if cls in HAS_K:
         spec["k"] = len(routes) + rng.choice([0, 0, 1])
     # constraints from actual routes
@@ -129,6 +131,8 @@ def gen_valid(rng, cls):
             spec["cons"] = [list(r[a:b])]
         if rng.random() < 0.3 and spec["cons"]:
             spec["cov"] = rng.choice([0.5, 0.75, 1.0])
+        elif rng.random() < 0.3 and spec["cons"] and cls in DAG_CLASSES:      # the length-based coverage instead (documented: not both)
+            spec["cov_len"] = rng.choice([0.5, 1.0]); spec["len_attr"] = True
     # ignore lists: keep at least one weighted non-ignored element
     if cls in HAS_ORIGIN and rng.random() < 0.3:
         if origin == "edge":
@@ -326,6 +330,35 @@ def v_cons_edgelist_int(spec, rng):      # node mode: a constraint given as a li
 def v_cov0(spec, rng):   spec["cov"] = 0; return True
 def v_covneg(spec, rng): spec["cov"] = -0.5; return True
 def v_covbig(spec, rng): spec["cov"] = 1.5; return True
+def _with_len(spec, rng):
+    """the related optional arguments get VALID values: a length-based coverage with its length attribute"""
+    if spec["cls"] not in DAG_CLASSES:
+        return False
+    spec["cov_len"] = rng.choice([0.5, 1.0]); spec["len_attr"] = True
+    return True
+def v_cov0_with_len(spec, rng):   spec["cov"] = 0; return _with_len(spec, rng)
+def v_covneg_with_len(spec, rng): spec["cov"] = -0.5; return _with_len(spec, rng)
+def v_covbig_with_len(spec, rng): spec["cov"] = 1.5; return _with_len(spec, rng)
+def _need_cons(spec, rng):
+    if spec["cls"] not in DAG_CLASSES:
+        return False
+    if not spec["cons"]:
+        spec["cons"] = [[_good_item(spec, rng)]]
+    spec["cov"] = 1.0
+    return True
+def v_covlen0(spec, rng):
+    if not _need_cons(spec, rng): return False
+    spec["cov_len"] = 0; spec["len_attr"] = True; return True
+def v_covlen_big(spec, rng):
+    if not _need_cons(spec, rng): return False
+    spec["cov_len"] = 1.5; spec["len_attr"] = True; return True
+def v_covlen_no_attr(spec, rng):
+    if not _need_cons(spec, rng): return False
+    spec["cov_len"] = 0.5; spec["len_attr"] = False; return True
+def v_covlen_and_cov(spec, rng):
+    if not _need_cons(spec, rng): return False
+    spec["cov_len"] = 0.5; spec["len_attr"] = True; spec["cov"] = 0.5; return True
+
 def v_k0(spec, rng):     spec["k"] = 0; return True
 def v_kneg(spec, rng):   spec["k"] = -2; return True
 def v_kfloat(spec, rng): spec["k"] = float(spec["k"]) + 0.5; return True
@@ -340,7 +373,9 @@ def v_ign_absent_node(spec, rng):
     if spec["origin"] != "node": return False
     spec["ign"] = spec["ign"] + ["zz_absent"]; return True
 
-VIOL = {"nonstr": v_nonstr, "cycle": v_cycle, "nosource": v_nosource, "nosink": v_nosink, "neg": v_neg,
+VIOL = {"cov0_with_len": v_cov0_with_len, "covneg_with_len": v_covneg_with_len, "covbig_with_len": v_covbig_with_len,
+        "covlen0": v_covlen0, "covlen_big": v_covlen_big, "covlen_no_attr": v_covlen_no_attr, "covlen_and_cov": v_covlen_and_cov,
+        "nonstr": v_nonstr, "cycle": v_cycle, "nosource": v_nosource, "nosink": v_nosink, "neg": v_neg,
         "missing": v_missing, "noncons": v_noncons, "cons_absent": v_cons_absent, "cons_tuple": v_cons_tuple,
         "cons_empty": v_cons_empty, "cons_item3": v_cons_item3, "cons_itemint": v_cons_itemint, "cons_edgelist_int": v_cons_edgelist_int,
         "cov0": v_cov0, "covneg": v_covneg, "covbig": v_covbig, "k0": v_k0, "kneg": v_kneg, "kfloat": v_kfloat,
@@ -355,6 +390,7 @@ def violations_for(cls):
     if cls in HAS_WEIGHTS: vs += ["neg", "missing"]
     if cls in IS_FD: vs.append("noncons")
     if cls in HAS_CONS: vs += ["cons_absent", "cons_tuple", "cons_empty", "cons_item3", "cons_itemint", "cons_edgelist_int", "cov0", "covneg", "covbig"]
+    if cls in DAG_CLASSES: vs += ["cov0_with_len", "covneg_with_len", "covbig_with_len", "covlen0", "covlen_big", "covlen_no_attr", "covlen_and_cov"]
     if cls in HAS_K: vs += ["k0", "kneg", "kfloat", "kfloatint"]
     if cls in HAS_WTYPE: vs.append("wtype")
     if cls in HAS_ORIGIN: vs += ["origin", "ign_malformed", "ign_absent_node"]
@@ -383,10 +419,31 @@ def _wtype(spec):
     return {"float": float, "int": int}.get(spec["wtype"], str)
 
 
-def construct(spec):
-    """Call the constructor of spec['cls'] exactly as a user would; returns the model object."""
+def sync_graph(G, spec, attr="flow"):
+    """edit the graph object G IN PLACE until it equals build_graph(spec) (same object: caches keyed by it stay attached)"""
+    T = build_graph(spec, attr)
+    for (u, v) in list(G.edges()):
+        if not T.has_edge(u, v):
+            G.remove_edge(u, v)
+    for x in list(G.nodes()):
+        if x not in T:
+            G.remove_node(x)
+    for x, d in T.nodes(data=True):
+        if x not in G:
+            G.add_node(x)
+        G.nodes[x].clear(); G.nodes[x].update(d)
+    for u, v, d in T.edges(data=True):
+        if not G.has_edge(u, v):
+            G.add_edge(u, v)
+        G[u][v].clear(); G[u][v].update(d)
+    return G
+
+
+def construct(spec, G=None):
+    """Call the constructor of spec['cls'] exactly as a user would; returns the model object.
+    G: use this graph object (already equal to the spec's graph) instead of building a fresh one."""
     import flowpaths as fp
-    cls = spec["cls"]; G = build_graph(spec)
+    cls = spec["cls"]; G = build_graph(spec) if G is None else G
     so = dict(SOLVER_OPTIONS)
     cons = copy.deepcopy(spec["cons"]); ign = list(spec["ign"]); st = list(spec["starts"]); en = list(spec["ends"])
     if cls == "stDAG":
@@ -409,6 +466,10 @@ def construct(spec):
             kw["subset_constraints"] = cons; kw["subset_constraints_coverage"] = spec["cov"]
         else:
             kw["subpath_constraints"] = cons; kw["subpath_constraints_coverage"] = spec["cov"]
+            if spec.get("cov_len") is not None:
+                kw["subpath_constraints_coverage_length"] = spec["cov_len"]
+            if spec.get("len_attr"):
+                kw["length_attr"] = "len"
     kw["elements_to_ignore"] = ign
     if cls != "kFlowDecomp":
         kw["additional_starts"] = st; kw["additional_ends"] = en
@@ -431,7 +492,7 @@ INNER = {"MinFlowDecomp": ("flowpaths.kflowdecomp", "kFlowDecomp"), "MinFlowDeco
          "MinPathCover": ("flowpaths.kpathcover", "kPathCover"), "MinPathCoverCycles": ("flowpaths.kpathcovercycles", "kPathCoverCycles")}
 
 
-def observe(spec):
+def observe(spec, G=None):
     """-> dict(ctor=kind|None, solve=kind|None, solved=bool|None, inner=bool|None)
     inner: (Min* classes) the k-loop of solve() constructed at least one k-model"""
     if spec["cls"] in INNER:
@@ -445,19 +506,19 @@ def observe(spec):
             return orig(self, *a, **kw)
         C.__init__ = wrapped
         try:
-            res = _observe(spec)
+            res = _observe(spec, G)
         finally:
             C.__init__ = orig
         if res is not None:
             res["inner"] = bool(seen)
         return res
-    return _observe(spec)
+    return _observe(spec, G)
 
 
-def _observe(spec):
+def _observe(spec, G=None):
     res = {"ctor": None, "solve": None, "solved": None}
     try:
-        m = construct(spec)
+        m = construct(spec, G)
     except _NotApplicable:
         return None
     except SystemExit as e:
